@@ -349,6 +349,16 @@ let run_batch (line : string) : string =
   Printf.sprintf "OK nb=%d | %s # %s" (List.length bs) (String.concat " | " (List.map part bs))
     (String.concat "," (List.map s_of_z (block_hash (BSpan ops))))
 
+(* case: cur row | next row | periodic values -> evaluation of every main transition constraint
+   of the generated DAG (Gen/AirGen.v) *)
+let run_aireval (line : string) : string =
+  let vals = Array.of_list (List.map z_of_string (split_ws (String.concat " " (String.split_on_char '|' line)))) in
+  let env (v : Big_int_Z.big_int) =
+    let i = Big_int_Z.int_of_big_int v in
+    if i < Array.length vals then vals.(i) else Big_int_Z.zero_big_int in
+  let all = Array.of_list (eval_nodes env air_nodes) in
+  "OK " ^ String.concat "," (List.map (fun r -> s_of_z all.(Big_int_Z.int_of_big_int r)) air_main)
+
 let () =
   let family = Sys.argv.(1) in
   let ic = open_in Sys.argv.(2) in
@@ -366,6 +376,7 @@ let () =
               | "stream" -> run_stream line
               | "iter" -> run_states line
               | "batch" -> run_batch line
+              | "aireval" -> run_aireval line
               | "astexec" -> run_astexec line
               | _ -> failwith "unknown family")
            with Failure m -> "DRIVER-FAIL " ^ m
